@@ -80,6 +80,7 @@ func configureEngine(e *sym.Engine) {
 	}
 	// go/types package-level functions used by convergen
 	e.Natives["go/types.AssignableTo"] = types.AssignableTo
+	e.Natives["golang.org/x/tools/go/ast/astutil.PathEnclosingInterval"] = astutil.PathEnclosingInterval
 	e.Natives["go/types.ConvertibleTo"] = types.ConvertibleTo
 	e.Natives["go/types.Identical"] = types.Identical
 	e.Natives["go/types.LookupFieldOrMethod"] = types.LookupFieldOrMethod
